@@ -200,6 +200,28 @@ fn judge(t: &Table, line: &str, layer: &str, rank: u64) -> (Vec<Failure>, bool, 
     let firsts: Vec<RVal> = expected.iter().map(|e| match e { Exp::Is(v) => v.clone(), Exp::OneOf(v) => v[0].clone() }).collect();
     let got = sut::run_batch(&tables, &st, &[line]);
     let mut out = Vec::new();
+    // the columns named one by one with the table name in front give the same row as `*`
+    {
+        let names: Vec<String> = (0..t.cols.len()).map(|i| format!("t.c{}", i)).collect();
+        if let Ok(qst) = sut::parse(&format!("SELECT {} FROM t", names.join(", "))) {
+            let q = sut::run_batch(&tables, &qst, &[line]);
+            let same = match (&got, &q) {
+                (Outcome::Ok(a), Outcome::Ok(b)) => sut::rows_same(&a.rows, &b.rows),
+                (Outcome::Err(_), Outcome::Err(_)) => true,
+                _ => false,
+            };
+            if !same {
+                out.push(fail(
+                    "extract:qualified-names-differ-from-star".into(),
+                    format!("{} on line {:?}: `SELECT {}` gives another row than `SELECT *`", def, line, names.join(", ")),
+                    case.clone(),
+                    sut::outcome_json(&got, |t| t.to_json()),
+                    sut::outcome_json(&q, |t| t.to_json()),
+                    rank,
+                ));
+            }
+        }
+    }
     let okey = h64(&format!("{:?}", firsts));
     let accepts = |e: &Exp, v: &RVal| match e {
         Exp::Is(x) => x.same(v),
